@@ -29,7 +29,7 @@ static void oracle_C14(const Case &c, vf::Stats &st) {
   for (size_t i = 0; i < n_exact; i++) {
     if (i >= got.toks.size()) { st.violation(key, "stream ends after " + std::to_string(i) + " tokens, reference continues with " + tokstr(want.toks[i]), cj); return; }
     ref::Tok g = real::totok(got.toks[i]); const ref::Tok &w = want.toks[i];
-    bool eof_open = (w.k == ref::T_EOF && want.toks.size() == 1);  // location of the EOF of an empty stream is left open
+    bool eof_open = (w.k == ref::T_EOF);  // the label of the end-of-file token itself is left open by the property
     if (g.k != w.k || g.text != w.text || (!eof_open && (g.file != w.file || g.line != w.line))) { st.violation(key, "token " + std::to_string(i) + " is " + tokstr(g) + ", reference " + tokstr(w), cj); return; }
   }
   size_t eofs = 0; for (auto &t : got.toks) if (t.t == Theo::Token::T_EOF) eofs++;
@@ -117,6 +117,7 @@ static void oracle_C15(const Case &c, vf::Stats &st) {
   std::vector<std::string> ge, we;
   for (auto &e : got.errors) ge.push_back(std::to_string((int)e.t) + "@" + e.file + ":" + std::to_string(e.line) + (e.file_request.empty() ? "" : " req=" + e.file_request));
   for (auto &e : want.errs) we.push_back(std::to_string(e.kind) + "@" + e.file + ":" + std::to_string(e.line) + (e.request.empty() ? "" : " req=" + e.request));
+  std::sort(ge.begin(), ge.end()); std::sort(we.begin(), we.end());  // the order in which errors are listed is not part of the property
   if (ge != we) { st.violation(key, "scanner reports " + vf::jarr_str(ge) + ", reference " + vf::jarr_str(we) + " (0 main missing, 1 expected filename, 2 not found, 3 recursive)", cj); return; }
   // marker order (every token that is not part of an include directive), up to the first malformed include exactly, after it
   // as the subsequence of marker tokens that both agree are present
